@@ -18,13 +18,12 @@
 (* labels for "loop test false" (m_exit) and "flag cleared" (m_clear).     *)
 (*                                                                         *)
 (* Named deviations (TRUE = as built, FALSE = repaired):                   *)
-(*   DevExitWindow  the monitor's decision to exit (loop test false;       *)
-(*                  the thread stays alive until stop() has returned) is   *)
-(*                  not atomic with the state `_start` tests (flag /       *)
-(*                  liveness): a                                           *)
-(*                  submission in the window starts nothing and is left    *)
-(*                  behind.  Repaired: submission and exit decision are    *)
-(*                  serialised by a lock.                                  *)
+(*   DevExitWindow  the monitor's decision to exit (loop test false; the    *)
+(*                  thread lives on until stop() has returned) is not      *)
+(*                  atomic with the state `_start` tests (flag / thread    *)
+(*                  liveness): a submission in the window starts nothing   *)
+(*                  and is left behind.  Repaired: submission and exit     *)
+(*                  decision are serialised by a lock.                     *)
 (*   DevPopGap      Glue only: between `popleft()` and the insertion into  *)
 (*                  `running_glue_jobs` the job is in neither container,   *)
 (*                  the monitor's loop test can see both empty.            *)
@@ -109,11 +108,12 @@ m_test:        \* while self.is_running and (<maps non-empty>):
 m_poll:        \* status of a copy of the pending map
     snap := pending \cap completed;
 m_proc:        \* per finished job: pop + done_job / reject_job
-    while (snap # {}) {
+    if (snap # {}) {
       with (j \in snap) {
         if (j \in pending) { pending := pending \ {j}; reported[j] := reported[j] + 1 };
         snap := snap \ {j};
-      }
+      };
+      if (snap # {}) { goto m_proc };
     };
 m_sleep:
     goto m_test;
@@ -273,7 +273,7 @@ c_test == /\ pc[SCHED] = "c_test"
 c_gmon == /\ pc[SCHED] = "c_gmon"
           /\ IF ~MonAlive
                 THEN /\ Assert(FreeMon # {}, 
-                               "Failure of assertion at line 71, column 3 of macro called at line 89, column 27.")
+                               "Failure of assertion at line 70, column 3 of macro called at line 88, column 27.")
                      /\ /\ alive' = [alive EXCEPT ![NextMon] = TRUE]
                         /\ cur' = NextMon
                 ELSE /\ TRUE
@@ -301,7 +301,7 @@ c_set == /\ pc[SCHED] = "c_set"
 
 c_spawn == /\ pc[SCHED] = "c_spawn"
            /\ Assert(FreeMon # {}, 
-                     "Failure of assertion at line 71, column 3 of macro called at line 93, column 10.")
+                     "Failure of assertion at line 70, column 3 of macro called at line 92, column 10.")
            /\ /\ alive' = [alive EXCEPT ![NextMon] = TRUE]
               /\ cur' = NextMon
            /\ pc' = [pc EXCEPT ![SCHED] = "c_ret"]
@@ -361,7 +361,9 @@ m_proc(self) == /\ pc[self] = "m_proc"
                                       ELSE /\ TRUE
                                            /\ UNCHANGED << pending, reported >>
                                 /\ snap' = [snap EXCEPT ![self] = snap[self] \ {j}]
-                           /\ pc' = [pc EXCEPT ![self] = "m_proc"]
+                           /\ IF snap'[self] # {}
+                                 THEN /\ pc' = [pc EXCEPT ![self] = "m_proc"]
+                                 ELSE /\ pc' = [pc EXCEPT ![self] = "m_sleep"]
                       ELSE /\ pc' = [pc EXCEPT ![self] = "m_sleep"]
                            /\ UNCHANGED << pending, reported, snap >>
                 /\ UNCHANGED << staged, moving, running, alive, cur, stAlive, 
